@@ -2,7 +2,7 @@
 From Coq Require Import List ZArith NArith Bool Permutation Sorted.
 From Coq.Strings Require Import Byte.
 Import ListNotations.
-From SV Require Import Text G_flags C10_Model C10_Lemmas C10_Table C10_Reader C10_Extra C10_Total.
+From SV Require Import Text G_flags C10_Model C10_Lemmas C10_Table C10_Reader C10_Extra C10_Total C10_Excl.
 Local Open Scope Z_scope.
 
 (* P0 single_loc_spec: _parse_single_loc on the text of one location. n -> [n-1, n), a..b -> [a-1, b), '<' and '>' -> BEYOND_LEFT /
@@ -132,6 +132,18 @@ Theorem C10_exclude_exact : forall excl r,
   /\ (mem k_seq excl = false -> mem k_fts excl = false -> mem k_translation excl = false -> view_rec excl r = view_rec [] r).
 Proof. exact (fun excl r => conj (exclude_exact excl r) (exclude_unknown excl r)). Qed.
 Print Assumptions C10_exclude_exact.
+
+(* the same on ARBITRARY text (any file, well-formed or not, any other exclude names): adding 'translation' to the exclude tuple
+   gives the result without it with that qualifier deleted from every feature (del_tr), adding 'seq' gives it with the residues
+   emptied (clear_seq) - same records, same order, same errors, nothing else changes; and the tuple matters only through the membership
+   of 'seq', 'fts' and 'translation' (order, repetitions and any other names have no effect on any file) *)
+Theorem C10_exclude_any_text : forall excl text,
+  iter_genbank (k_translation :: excl) text = res_map (map del_tr) (iter_genbank excl text)
+  /\ iter_genbank (k_seq :: excl) text = res_map (map clear_seq) (iter_genbank excl text)
+  /\ (forall excl2, mem k_seq excl = mem k_seq excl2 -> mem k_fts excl = mem k_fts excl2 -> mem k_translation excl = mem k_translation excl2 ->
+      iter_genbank excl text = iter_genbank excl2 text /\ read_fts_genbank excl text = read_fts_genbank excl2 text).
+Proof. exact (fun excl text => conj (exclude_translation_any excl text) (conj (exclude_seq_any excl text) (fun e2 => iter_mem_ext excl e2 text))). Qed.
+Print Assumptions C10_exclude_any_text.
 
 (* read_fts agrees with read/iter_: its result is the concatenation of the feature lists of the records *)
 Theorem C10_read_fts_agrees : forall excl rs, wf_C10 excl rs = true ->
